@@ -19,6 +19,11 @@ var checks = map[string]checkSpec{
 		Quick:     50 * time.Second, Thorough: 15 * time.Minute, Level: "exploration",
 		Rule: "Seeded histories of 1-4 group Readers (FetchMessage+CommitMessages and ReadMessage users, sync and interval commits) against the simulated coordinator: members joining late, closing, crashing (black-holed until evicted), coordinator moves, error codes / cuts / slow answers on every group API, appends during reading; commits, hand-overs and resume points are checked against the coordinator's journal (R1-R5) and every leader assignment against the C14 invariants.",
 	},
+	"C15": {
+		Scenarios: []scnSpec{{Name: "cgroup", Share: 1}},
+		Quick:     40 * time.Second, Thorough: 12 * time.Minute, Level: "exploration",
+		Rule: "The exported ConsumerGroup API driven directly by 1-3 members: Next loops, 0-4 functions per generation (prompt, lingering, self-exiting, late-started), Close at a seeded instant, coordinator answers drawn from success / error codes / cuts / slow / stalls on every group API, evictions, partition additions with the watcher; oracles R1-R6 over function lifetimes and the coordinator journal (exact simulated instants in fault-free timing).",
+	},
 	"C07": {
 		Scenarios: []scnSpec{{Name: "writer", Params: "focus=order", Share: 1}},
 		Quick:     35 * time.Second, Thorough: 10 * time.Minute, Level: "exploration",
